@@ -10,7 +10,8 @@ Fixpoint insert_hdr (x : bytes * list bytes) (l : hdrs) : hdrs :=
   | y :: r => if bytes_leb (fst x) (fst y) then x :: l else y :: insert_hdr x r
   end.
 Definition sort_hdrs (h : hdrs) : hdrs := fold_right insert_hdr [] h.
-Definition V_hdrs (h : hdrs) : V := VL (map (fun kv => VL [VS (fst kv); VSl (snd kv)]) (sort_hdrs h)).
+Definition V_hdrs (h : hdrs) : V :=
+  VL (map (fun kv => VL [VS (fst kv); VSl (if name_is (fst kv) "Trailer" then sort_bytes (snd kv) else snd kv)]) (sort_hdrs h)).
 
 Definition mconf_of (v : V) : mconf :=
   mkMconf (vs (vnth 0 v)) (vz (vnth 1 v)) (vb (vnth 2 v)) (vb (vnth 3 v)) (map vz (vl (vnth 4 v)))
